@@ -26,6 +26,7 @@ var (
 func ResetExecution() {
 	ptrIDs = map[unsafe.Pointer]uint64{}
 	ptrNext = 0
+	fins = nil
 }
 
 func ptrID(p unsafe.Pointer) uint64 {
@@ -198,9 +199,93 @@ func SliceW(p *[]byte, name, site string) *[]byte {
 // rewritten packages run with them off unless a free-mode pass enables them.
 var Finalizers = false
 
+// ModelFinalizers turns finalizers into events the harness decides: a
+// finalizer set while it is on does not run by itself; CollectNow (called by
+// the scenario at the points where it wants "a garbage collection happens
+// now") finds out, with real collections, which of the registered objects
+// have become unreachable, and runs their finalizers in the calling thread,
+// in registration order. Which objects are unreachable at a given point of a
+// given schedule is decided by Go's precise collector and is the same in
+// every run of one binary.
+var ModelFinalizers = false
+
+type finRec struct {
+	fin  interface{}
+	obj  interface{} // set (resurrecting the object) when the collector found it unreachable
+	dead bool
+	ran  bool
+	key  uintptr // address, for SetFinalizer(obj, nil); never dereferenced
+}
+
+var fins []*finRec
+
+// ResetFinalizers forgets all modelled finalizers (start of an execution).
+func ResetFinalizers() { fins = nil }
+
 // SetFinalizer replaces runtime.SetFinalizer in the rewritten packages.
 func SetFinalizer(obj, fin interface{}) {
 	if Finalizers {
 		runtime.SetFinalizer(obj, fin)
+		return
 	}
+	if !ModelFinalizers {
+		return
+	}
+	key := reflect.ValueOf(obj).Pointer()
+	for _, r := range fins {
+		if r.key == key && !r.dead {
+			r.ran = true // superseded or cleared
+		}
+	}
+	runtime.SetFinalizer(obj, nil)
+	if fin == nil {
+		return
+	}
+	rec := &finRec{fin: fin, key: key}
+	fins = append(fins, rec)
+	t := reflect.TypeOf(obj)
+	mark := reflect.MakeFunc(reflect.FuncOf([]reflect.Type{t}, nil, false), func(args []reflect.Value) []reflect.Value {
+		rec.dead = true
+		rec.obj = args[0].Interface()
+		return nil
+	})
+	runtime.SetFinalizer(obj, mark.Interface())
+}
+
+// CollectNow is the event "a garbage collection happens now, and the
+// finalizers of everything it found unreachable run". It returns how many
+// finalizers ran.
+func CollectNow() int {
+	if !ModelFinalizers {
+		return 0
+	}
+	// Two full cycles, each followed by a sentinel whose finalizer is queued
+	// behind everything found in that cycle (the runtime runs finalizers from
+	// one goroutine, in queue order).
+	for i := 0; i < 2; i++ {
+		done := make(chan struct{})
+		s := new([16]byte)
+		runtime.SetFinalizer(s, func(*[16]byte) { close(done) })
+		s = nil
+		for collected := false; !collected; {
+			runtime.GC()
+			select {
+			case <-done:
+				collected = true
+			default:
+				runtime.Gosched()
+			}
+		}
+	}
+	n := 0
+	for i := 0; i < len(fins); i++ { // finalizers may register new ones
+		r := fins[i]
+		if r.dead && !r.ran {
+			r.ran = true
+			n++
+			reflect.ValueOf(r.fin).Call([]reflect.Value{reflect.ValueOf(r.obj)})
+			r.obj = nil
+		}
+	}
+	return n
 }
